@@ -210,9 +210,27 @@ def run(eng: Engine, ck: Check):
                 # components taken from the split list
                 subs = [s for s in ast.walk(ex) if isinstance(s, ast.Subscript) and 'split_remote_path' in unparse(s.value)]
                 whole = mentions_name(ex, rp) and not subs and 'split_remote_path' not in unparse(ex)
-                ok = not whole and (split_clean or local_clean)
+                # the guarantee of the split ("no component is '.', '..' or empty, none contains a separator") holds for the component AS IT LEFT
+                # the filter: a transformation applied afterwards (unicode normalisation, strip, replace, case folding ..) can produce what the filter
+                # had refused (NFKC folds U+FF0E / U+2025 into '.' / '..' and U+FF0F into '/'); then only a check on the transformed value counts
+                def wrappers(root: ast.AST, target: ast.AST, acc=()):
+                    if root is target:
+                        return acc
+                    for ch_ in ast.iter_child_nodes(root):
+                        r_ = wrappers(ch_, target, acc + ((root,) if isinstance(root, (ast.Call, ast.JoinedStr, ast.BinOp)) else ()))
+                        if r_ is not None:
+                            return r_
+                    return None
+                transformed = []
+                for s_ in subs:
+                    for w_ in wrappers(ex, s_) or ():
+                        if isinstance(w_, ast.Call) and unparse(w_.func) == 'os.path.join':
+                            continue
+                        transformed.append(unparse(w_)[:60])
+                ok = not whole and ((split_clean and not transformed) or local_clean)
                 ck.ob('R-C09-TAINT', ap, r, f'{ci.name}.apply: the peer-supplied component used as {role} can be neither "." nor ".." '
                       '(filtered by split_remote_path or checked locally)', ok,
+                      (f'the component is transformed after the filter ({transformed[0]}) and the result is not checked: ' if transformed and split_clean else '') +
                       f'`{unparse(e)}` = `{unparse(ex)[:70]}` reaches the returned {role} unchecked: a remote path like `a\\..\\x` or `a\\b\\..` yields '
                       f'{"<download dir>/.." if role == "directory" else "the file name .."}', construct=f'{ci.name} {role} sanitised')
                 for s in subs:
